@@ -164,7 +164,7 @@ fn recipe_for(prop: &str) -> Recipe {
         },
         "C03" | "C13" => Recipe { api_resize: true, api_scrollback: true, sync_each: false, steps: 30, ..base },
         // the redraw properties speak of every reachable screen: resized ones too
-        "C01" | "C15" | "C19" | "C02" => Recipe { api_resize: true, api_scrollback: true, ..base },
+        "C01" | "C15" | "C19" | "C02" | "C14" => Recipe { api_resize: true, api_scrollback: true, ..base },
         _ => Recipe { api_scrollback: true, ..base },
     }
 }
@@ -282,6 +282,10 @@ fn queries(ctx: &mut Ctx) {
             ctx.sess.checked("I", "I");
             ctx.sess.checked("F state", "F");
             ctx.sess.checked("F contents", "F");
+            if ctx.prop == "C19" {
+                ctx.sess.checked("X state 0", "X");
+                ctx.sess.checked("X state 1", "X");
+            }
         }
         "C15" => {
             ctx.sess.checked("I", "I");
@@ -414,13 +418,65 @@ fn run_oracle(ctx: &mut Ctx, dirty: &mut Option<Vec<u8>>, chain: &mut Option<(vt
                 let f = vtharness::catch(|| oracle::c19(&s, &s.clone())).unwrap_or(None);
                 ctx.record(f);
             }
+            // the concatenation clause, against every snapshot of the case (earlier states of this
+            // history, and the end state of an independent one)
+            let f = vtharness::catch(|| oracle::c19_concat(&s, &s)).unwrap_or(None);
+            ctx.record(f);
+            for k in 0..2 {
+                if let Some(Some(p)) = ctx.sess.runner.slots.get(k).cloned() {
+                    let f = vtharness::catch(|| oracle::c19_concat(&s, &p)).unwrap_or(None);
+                    ctx.record(f);
+                }
+            }
         }
         _ => {}
     }
 }
 
+/// the parts of the public API that the line protocol cannot reach (they take or return Rust
+/// values, not screen state): `Parser::default`, `callbacks` / `callbacks_mut`, `screen_mut`
+fn api_sanity(ctx: &mut Ctx) {
+    let mut bad: Vec<String> = vec![];
+    let r = vtharness::catch(|| {
+        let mut bad: Vec<String> = vec![];
+        let d = vt100::Parser::default();
+        let fresh = vt100::Parser::new(24, 80, 0);
+        if d.screen().size() != (24, 80) {
+            bad.push(format!("Parser::default() has size {:?}, documented 80x24", d.screen().size()));
+        }
+        if d.screen().state_formatted() != fresh.screen().state_formatted() || d.screen().contents() != "" {
+            bad.push("Parser::default() is not a blank 24x80 parser".into());
+        }
+        let mut d2 = vt100::Parser::default();
+        d2.process(b"1\r\n".repeat(30).as_slice());
+        d2.screen_mut().set_scrollback(5);
+        if d2.screen().scrollback() != 0 {
+            bad.push("Parser::default() keeps scrollback, documented: none".into());
+        }
+        let rec = vtharness::Rec { events: vec![], resize_policy: false };
+        let mut p = vt100::Parser::new_with_callbacks(2, 4, 0, rec);
+        p.callbacks_mut().events.push("mark".into());
+        p.process(b"\x07");
+        if p.callbacks().events != vec!["mark".to_string(), "bell".to_string()] {
+            bad.push(format!("callbacks()/callbacks_mut() do not address the object process() reports to: {:?}", p.callbacks().events));
+        }
+        bad
+    });
+    match r {
+        Ok(b) => bad.extend(b),
+        Err(loc) => bad.push(format!("panic at {loc}")),
+    }
+    ctx.oracle_cases += 1;
+    for b in bad {
+        ctx.failures.push((Failure { property: ctx.prop.clone(), key: "api-sanity".into(), desc: b }, vec!["# public API outside the line protocol (Parser::default, callbacks_mut)".into()]));
+    }
+}
+
 /// deterministic templates run before the random cases
 fn templates(ctx: &mut Ctx) {
+    if matches!(ctx.prop.as_str(), "C03" | "C18") {
+        api_sanity(ctx);
+    }
     match ctx.prop.as_str() {
         "C18" | "C03" | "C13" => {
             // every C1 control character as UTF-8: unsplit, and split between its two bytes
@@ -608,7 +664,7 @@ fn run_generic(ctx: &mut Ctx, n_cases: u64) {
             if ctx.sess.dead {
                 break;
             }
-            if matches!(ctx.prop.as_str(), "C02" | "C09" | "C10" | "C15" | "C03") && ctx.rng.chance(1, 2) {
+            if matches!(ctx.prop.as_str(), "C02" | "C09" | "C10" | "C15" | "C03" | "C19") && ctx.rng.chance(1, 2) {
                 let k = ctx.rng.below(2);
                 ctx.sess.snapshot(k);
             }
@@ -664,7 +720,7 @@ fn run_c04(ctx: &mut Ctx, n_cases: u64) {
     for x in 0x80u8..=0x9f {
         templates.push(vec![b'a', 0xC2, x, b'b']);
     }
-    for cp in [0xA0u32, 0xFF, 0x7FF, 0x800, 0xFFFD, 0xD7FF, 0xE000, 0xFFFF, 0x10000, 0x10FFFF, 0x4E00, 0x301] {
+    for cp in [0xA0u32, 0xFF, 0x7FF, 0x800, 0xFFFD, 0xD7FF, 0xE000, 0xFFFF, 0x10000, 0x10FFFF, 0x4E00, 0x301, 0xFEFF, 0x200B, 0xFFFE, 0x2028] {
         let mut v = vec![b'a'];
         let mut b = [0u8; 4];
         v.extend_from_slice(char::from_u32(cp).unwrap().encode_utf8(&mut b).as_bytes());
